@@ -113,7 +113,7 @@ def rule_emit(m, rep, rid='R1', counters=False, strict=False, early_pure=False):
     rep.ob(rid, 'emit/accepted-means-ok-len', g2, body.where(sb),
            'accepted => Ok(metric.len())' if g2 else 'an accepted enqueue returns %s' % [fmt(x) for x in r_ok])
     # no path returns Ok without passing the Ok edge: feasible outcome paths
-    if counters:
+    if counters and m.need_counters(rep, rid, ('submitted', 'drained', 'panics')):
         sub_blocks = set(bi for bi, t in body.calls() if not body.blocks[bi]['cleanup'] and
                          m.is_counter_op(norm(T.call_term(bi)), 'submitted', 'fetch_add'))
         other = set(bi for bi, t in body.calls() if not body.blocks[bi]['cleanup'] and
@@ -381,7 +381,7 @@ def rule_loop(m, rep, rid='R3', drained=False, liveness=False):
                'an empty queue does not end the worker' if bad_exit is None else
                'the %s receive also fails when the queue is merely empty (timeout): leaving the loop on that error ends the worker '
                'while handles are alive, later metrics are never delivered' % lm.dkind)
-    if drained:
+    if drained and m.need_counters(rep, rid, ('drained',)):
         dr = set(bi for bi, t in body.calls() if not body.blocks[bi]['cleanup'] and
                  m.is_counter_op(norm(T.call_term(bi)), 'drained', 'fetch_add'))
         rep.sites(len(dr))
@@ -803,6 +803,8 @@ def rule_isolation(m, rep, rid='R1'):
 # ------------------------------------------------------------------ C15-R3/R4, C11-R4
 def rule_counters(m, rep):
     cad = m.cad
+    if not m.need_counters(rep, 'C15-R3', ('submitted', 'drained', 'panics')):
+        return
     ops = []
     # a counter may be a private newtype around the atomic: its methods are analysed where they are applied to a counter
     wrappers = set()
